@@ -102,4 +102,358 @@ def bounded_summary(tier, seed):
     return guarded(p, _check_summary, tier, seed)
 
 
-BOUNDED = [bounded_summary]
+# ---------------------------------------------------------------------------------------------------------------
+# bounded stand-ins for the first clause ("every assertion left ... holds when the test case is re-executed") and for the
+# glue between the verification traces and the proved set-cover selection.
+ATO = "pynguin.assertion.assertiontraceobserver"
+_VERDICTS = ("hold", "fail", "error")
+
+
+def _mk_assertion(kind, j):
+    """An assertion over the namespace {v<j>: j, ...} with a known verdict (distinct per position)."""
+    import pynguin.assertion.assertion as ass
+    if kind == "hold":
+        return ass.ObjectAssertion(f"v{j}", j)
+    if kind == "fail":
+        return ass.ObjectAssertion(f"v{j}", j + 100)
+    return ass.CollectionLengthAssertion(f"v{j}", 1)      # len(int): TypeError
+
+
+def _stmt(assertions, k=0):
+    import libcst as cst
+    import pynguin.testcase.testcase as tc
+    return tc.Statement(node=cst.parse_module(f"s_{k} = {k}\n").body[0], bound_variable=f"s_{k}", bound_type=int,
+                        assertions=list(assertions))
+
+
+def _independent_verdict(assertion, namespace):
+    """Oracle: render the assertion and evaluate it on a copy of the namespace."""
+    import libcst as cst
+    from pynguin.assertion.assertion_to_ast import assertion_to_cst
+    node = assertion_to_cst(assertion)
+    if node is None:
+        return "unrendered"
+    try:
+        exec(compile(cst.Module(body=[node]).code, "<oracle>", "exec"), dict(namespace))  # noqa: S102
+    except AssertionError:
+        return "fail"
+    except Exception:  # noqa: BLE001
+        return "error"
+    return "hold"
+
+
+def _check_observer(part: Part, tier, seed):
+    import pynguin.assertion.assertion as ass
+    import pynguin.assertion.assertiontraceobserver as ato
+    n_max = 5 if tier == "thorough" else 4
+    ns0 = {f"v{j}": j for j in range(n_max)}
+    for n in range(0, n_max + 1):
+        for vec in itertools.product(_VERDICTS, repeat=n):
+            for position in (0, 2):
+                part.case(n > 0)
+                obs = ato.RemoteAssertionVerificationObserver()
+                obs._state.position = position   # noqa: SLF001
+                st = _stmt([_mk_assertion(k, j) for j, k in enumerate(vec)])
+                ns = dict(ns0)
+                obs.after_statement_execution(st, None, ns, None)
+                tr = obs._state.trace             # noqa: SLF001
+                flagged = set(tr.failed.get(position, ())) | set(tr.error.get(position, ()))
+                oracle = [_independent_verdict(a, ns0) for a in st.assertions]
+                missed = [j for j, v in enumerate(oracle) if v in ("fail", "error") and j not in flagged]
+                if missed or obs._state.position != position + 1:   # noqa: SLF001
+                    part.violation("every assertion of the statement that does not hold in the verification execution is "
+                                   "recorded (failed or error) at the statement's position",
+                                   "observer-misses-nonholding:" + ("first-nonholding-only" if flagged and missed else "other"),
+                                   {"assertion_verdicts": list(vec), "position": position, "recorded_failed": {k: list(v) for k, v in tr.failed.items()},
+                                    "recorded_error": {k: list(v) for k, v in tr.error.items()}, "not_recorded": missed},
+                                   target=f"{ATO}:RemoteAssertionVerificationObserver.after_statement_execution")
+    # statements that carry only an exception assertion are judged against the exception the executor captured
+    for raised, expected, want in ((None, "ValueError", "failed"), (KeyError("k"), "ValueError", "error"), (ValueError("v"), "ValueError", None)):
+        part.case()
+        obs = ato.RemoteAssertionVerificationObserver()
+        st = _stmt([ass.ExceptionAssertion("builtins", expected)])
+        obs.after_statement_execution(st, None, {}, raised)
+        tr = obs._state.trace                     # noqa: SLF001
+        got = "failed" if 0 in tr.failed.get(0, ()) else "error" if 0 in tr.error.get(0, ()) else None
+        if (want is None) != (got is None):
+            part.violation("an exception assertion that does not hold (no exception, or another one) is recorded",
+                           "observer-exception-assertion", {"raised": repr(raised), "expected": expected, "recorded": got},
+                           target=f"{ATO}:RemoteAssertionVerificationObserver.after_statement_execution")
+
+
+def bounded_observer(tier, seed):
+    p = Part("C21", "verification-observer", [f"{ATO}:RemoteAssertionVerificationObserver.after_statement_execution"],
+             scope="the real observer on one statement carrying every vector of <= 4 (thorough 5) assertions with verdicts in "
+                   "{holds, fails, raises} at positions 0 and 2, plus the three exception-assertion cases; oracle: each rendered "
+                   "assertion evaluated independently on a copy of the namespace", bound="assertions per statement <= 4 (5)")
+    return guarded(p, _check_observer, tier, seed)
+
+
+def _subsets(n):
+    return itertools.chain.from_iterable(itertools.combinations(range(n), r) for r in range(n + 1))
+
+
+def _check_remove(part: Part, tier, seed):
+    import pynguin.assertion.assertiongenerator as ag
+    import pynguin.testcase.testcase as tc
+    from pynguin.assertion.assertion_trace import AssertionVerificationTrace
+    from pynguin.testcase.execution_result import ExecutionResult
+    remove = ag.AssertionGenerator._AssertionGenerator__remove_non_holding_assertions   # noqa: SLF001
+    n_max = 4 if tier == "thorough" else 3
+    for n0, n1 in itertools.product(range(n_max + 1), range(0, 3)):
+        for f0 in _subsets(n0):
+            for e0 in _subsets(n0):
+                for f1 in _subsets(n1):
+                    part.case(n0 > 0)
+                    t = tc.TestCase()
+                    a0 = [_mk_assertion("hold", j) for j in range(n0)]
+                    a1 = [_mk_assertion("hold", 10 + j) for j in range(n1)]
+                    t.add_statement(_stmt(a0, 0))
+                    t.add_statement(_stmt(a1, 1))
+                    tr = AssertionVerificationTrace()
+                    for j in f0:
+                        tr.failed[0].add(j)
+                    for j in e0:
+                        tr.error[0].add(j)
+                    for j in f1:
+                        tr.failed[1].add(j)
+                    res = ExecutionResult()
+                    res.assertion_verification_trace = tr
+                    remove(t, res)
+                    exp0 = [a for j, a in enumerate(a0) if j not in f0 and j not in e0]
+                    exp1 = [a for j, a in enumerate(a1) if j not in f1]
+                    got0, got1 = t.statements()[0].assertions, t.statements()[1].assertions
+                    bad0 = [j for j, a in enumerate(a0) if (j in f0 or j in e0) and any(a is g for g in got0)]
+                    bad1 = [j for j, a in enumerate(a1) if j in f1 and any(a is g for g in got1)]
+                    if bad0 or bad1:
+                        part.violation("every assertion the verification trace reports as failed or erroneous is removed from its statement",
+                                       "nonholding-kept", {"assertions": [n0, n1], "failed": {"0": list(f0), "1": list(f1)}, "error": {"0": list(e0)},
+                                                           "kept_although_reported": {"0": bad0, "1": bad1}},
+                                       target=f"{AG}:AssertionGenerator.__remove_non_holding_assertions")
+                    elif [id(a) for a in got0] != [id(a) for a in exp0] or [id(a) for a in got1] != [id(a) for a in exp1]:
+                        part.violation("exactly the reported assertions are removed (the others stay, in order)", "holding-removed",
+                                       {"assertions": [n0, n1], "failed": {"0": list(f0), "1": list(f1)}, "error": {"0": list(e0)},
+                                        "kept": [len(got0), len(got1)], "expected_kept": [len(exp0), len(exp1)]},
+                                       target=f"{AG}:AssertionGenerator.__remove_non_holding_assertions")
+
+
+def bounded_remove(tier, seed):
+    p = Part("C21", "remove-non-holding", [f"{AG}:AssertionGenerator.__remove_non_holding_assertions"],
+             scope="two statements with <= 3 (thorough 4) and <= 2 pairwise different assertions, every pair of failed/error index "
+                   "sets for the first and every failed set for the second", bound="assertions per statement <= 3 (4)")
+    return guarded(p, _check_remove, tier, seed)
+
+
+def _check_glue(part: Part, tier, seed):
+    """The glue between verification traces and the proved selection: after __remove_non_relevant_assertions (with and without
+    minimization) the kept assertions still kill (through the same traces) every non-timed-out mutant the full set killed."""
+    import random
+    import pynguin.assertion.assertiongenerator as ag
+    import pynguin.configuration as config
+    import pynguin.testcase.testcase as tc
+    from pynguin.assertion.assertion_trace import AssertionVerificationTrace
+    from pynguin.testcase.execution_result import ExecutionResult
+    rel = ag.MutationAnalysisAssertionGenerator._MutationAnalysisAssertionGenerator__remove_non_relevant_assertions   # noqa: SLF001
+    rng = random.Random(seed)
+    rounds = 1500 if tier == "thorough" else 400
+    saved = config.configuration.test_case_output.assertion_minimization
+    try:
+        for r in range(rounds):
+            part.case()
+            minimize = bool(r % 2)
+            config.configuration.test_case_output.assertion_minimization = minimize
+            n_stmts, n_mut = rng.randint(1, 3), rng.randint(0, 5)
+            sizes = [rng.randint(0, 3) for _ in range(n_stmts)]
+            t = tc.TestCase()
+            originals = []
+            for k, sz in enumerate(sizes):
+                a = [_mk_assertion("hold", 10 * k + j) for j in range(sz)]
+                originals.append(a)
+                t.add_statement(_stmt(a, k))
+            infos, results, kills = [], [], {}
+            for m in range(n_mut):
+                timed = rng.random() < 0.2
+                infos.append(ag._MutantInfo(m, timed_out_by=[0] if timed else [], killed_by=[]))   # noqa: SLF001
+                if rng.random() < 0.15:
+                    results.append(None)
+                    continue
+                tr = AssertionVerificationTrace()
+                for k, sz in enumerate(sizes):
+                    for j in range(sz):
+                        if rng.random() < 0.3:
+                            (tr.failed if rng.random() < 0.7 else tr.error)[k].add(j)
+                            if not timed:
+                                kills.setdefault((k, j), set()).add(m)
+                res = ExecutionResult()
+                res.assertion_verification_trace = tr
+                results.append(res)
+            rel([t], [results], ag._MutationSummary(infos))    # noqa: SLF001
+            kept = {(k, j) for k, a in enumerate(originals) for j, x in enumerate(a) if any(x is g for g in t.statements()[k].assertions)}
+            all_killed = set().union(*kills.values()) if kills else set()
+            kept_killed = set().union(*[v for key, v in kills.items() if key in kept]) if kills else set()
+            if kept_killed != all_killed:
+                part.violation("the kept assertions together still kill every mutant killed by the full set",
+                               "kills-lost:" + ("minimization" if minimize else "relevance-filter"),
+                               {"minimization": minimize, "assertions_per_statement": sizes,
+                                "kill_map": {f"{k}": sorted(v) for k, v in sorted(kills.items())}, "kept": sorted(kept),
+                                "lost_mutants": sorted(all_killed - kept_killed)},
+                               target=f"{AG}:MutationAnalysisAssertionGenerator.__minimize_assertions")
+            extra = [len(s.assertions) - sum(1 for x in originals[k] if any(x is g for g in s.assertions)) for k, s in enumerate(t.statements())]
+            if any(extra):
+                part.violation("assertion minimization keeps a subset of the assertions", "not-a-subset",
+                               {"assertions_per_statement": sizes, "foreign_assertions": extra},
+                               target=f"{AG}:MutationAnalysisAssertionGenerator.__minimize_assertions")
+    finally:
+        config.configuration.test_case_output.assertion_minimization = saved
+
+
+def bounded_glue(tier, seed):
+    p = Part("C21", "traces-to-kill-map", [f"{AG}:MutationAnalysisAssertionGenerator.__remove_non_relevant_assertions",
+                                           f"{AG}:MutationAnalysisAssertionGenerator.__minimize_assertions",
+                                           f"{AG}:MutationAnalysisAssertionGenerator.__build_kill_map"],
+             scope="400 (thorough 1500) seeded random histories: 1-3 statements with 0-3 assertions, 0-5 mutants (timed out with "
+                   "p=0.2, unchecked with p=0.15), each assertion violated on each mutant with p=0.3; both settings of "
+                   "assertion_minimization", bound="sampled, not exhaustive")
+    return guarded(p, _check_glue, tier, seed)
+
+
+_E2E_MODULE = "c21_tickets"
+_E2E_SOURCE = '''
+import itertools
+
+_serial = itertools.count(1)
+_calls = []
+
+
+class Ticket:
+    def __init__(self, price):
+        self.number = next(_serial)
+        self.label = "T-" + str(self.number)
+        self.price = price + 1
+        self.tax = price * 2
+
+
+def issue(price):
+    return Ticket(price)
+
+
+def visits(tag):
+    _calls.append(tag)
+    return len(_calls)
+
+
+def total(a, b):
+    return a + b
+'''
+
+
+def _check_e2e(part: Part, tier, seed):
+    import ast as _ast, importlib, inspect, logging, shutil, sys, tempfile  # noqa: E401
+    from pathlib import Path
+    import libcst as cst
+    import pytest
+    import pynguin.assertion.assertiongenerator as ag
+    import pynguin.assertion.mutation_analysis.mutators as mu
+    import pynguin.assertion.mutation_analysis.operators as mo
+    import pynguin.configuration as config
+    import pynguin.ga.testcasechromosome as tcc
+    import pynguin.ga.testsuitechromosome as tsc
+    import pynguin.testcase.testcase as tc
+    from pynguin.assertion.assertion_to_ast import assertion_to_cst
+    from pynguin.assertion.mutation_analysis.controller import MutationController
+    from pynguin.assertion.mutation_analysis.transformer import ParentNodeTransformer
+    from pynguin.instrumentation.machinery import install_import_hook
+    from pynguin.instrumentation.tracer import SubjectProperties
+    from pynguin.testcase.execution import TestCaseExecutor
+    from pynguin.utils.naming import get_module_alias
+    logging.disable(logging.CRITICAL)
+    workdir = Path(tempfile.mkdtemp(prefix="c21_"))
+    (workdir / f"{_E2E_MODULE}.py").write_text(_E2E_SOURCE)
+    sys.path.insert(0, str(workdir))
+    saved = (config.configuration.module_name, config.configuration.test_case_output.assertion_minimization)
+    config.configuration.module_name = _E2E_MODULE
+    alias = get_module_alias(_E2E_MODULE)
+    sp = SubjectProperties()
+    hook = install_import_hook(_E2E_MODULE, sp)
+    hook.__enter__()
+    try:
+        with sp.instrumentation_tracer:
+            sys.modules.pop(_E2E_MODULE, None)
+            module = importlib.import_module(_E2E_MODULE)
+
+        def stmt(code, var, typ=None):
+            return tc.Statement(node=cst.parse_module(code + "\n").body[0], bound_variable=var, bound_type=typ)
+        blocks = {
+            "issue": [("int_0 = 41", "int_0", int), (f"ticket_0 = {alias}.issue(int_0)", "ticket_0", None)],
+            "visits": [("str_0 = 'a'", "str_0", str), (f"int_1 = {alias}.visits(str_0)", "int_1", None)],
+            "total": [("int_2 = 3", "int_2", int), (f"int_3 = {alias}.total(int_2, int_2)", "int_3", None)],
+            "issue2": [("int_4 = 7", "int_4", int), (f"ticket_1 = {alias}.issue(int_4)", "ticket_1", None)],
+        }
+        combos = [c for r in (1, 2, 3) for c in itertools.permutations(blocks, r)]
+        if tier != "thorough":
+            combos = [c for c in combos if len(c) <= 2]
+
+        def make(label, executor):
+            if label == "plain":
+                return ag.AssertionGenerator(executor)
+            module_ast = ParentNodeTransformer.create_ast(inspect.getsource(module))
+            controller = MutationController(mu.FirstOrderMutator([mo.ArithmeticOperatorReplacement, mo.ConstantReplacement]),
+                                            module_ast, module)
+            return ag.MutationAnalysisAssertionGenerator(executor, controller)
+        for combo in combos:
+            for label, minim in (("plain", False), ("mutation-analysis", False), ("mutation-analysis", True)):
+                part.case()
+                config.configuration.test_case_output.assertion_minimization = minim
+                gen = make(label, TestCaseExecutor(sp))
+                t = tc.TestCase()
+                for b in combo:
+                    for code, var, typ in blocks[b]:
+                        t.add_statement(stmt(code, var, typ))
+                suite = tsc.TestSuiteChromosome()
+                suite.add_test_case_chromosome(tcc.TestCaseChromosome(t))
+                suite.accept(gen)
+                # independent re-execution on the unmutated module
+                ns = {"__builtins__": __builtins__, "pytest": pytest, alias: module}
+                violated = []
+                with sp.instrumentation_tracer:
+                    for s in t.statements():
+                        exec(cst.Module(body=[s.node]).code, ns)  # noqa: S102
+                        for a in s.assertions:
+                            node = assertion_to_cst(a)
+                            if node is None:
+                                continue
+                            code = cst.Module(body=[node]).code.strip()
+                            try:
+                                exec(code, ns)  # noqa: S102
+                            except BaseException as e:  # noqa: BLE001
+                                violated.append(f"{code} -> {type(e).__name__}")
+                if violated:
+                    part.violation("every assertion left on a test case after assertion generation holds when the test case is "
+                                   "re-executed on the unmutated module", f"kept-assertion-fails:{label}",
+                                   {"generator": label, "assertion_minimization": minim, "blocks": list(combo),
+                                    "test": [cst.Module(body=[s.node]).code.strip() for s in t.statements()],
+                                    "kept_assertions_that_fail": violated},
+                                   target=f"{AG}:AssertionGenerator._add_assertions")
+    finally:
+        hook.__exit__(None, None, None)
+        sys.modules.pop(_E2E_MODULE, None)
+        sys.path.remove(str(workdir))
+        shutil.rmtree(workdir, ignore_errors=True)
+        config.configuration.module_name, config.configuration.test_case_output.assertion_minimization = saved
+        logging.disable(logging.NOTSET)
+
+
+def bounded_e2e(tier, seed):
+    p = Part("C21", "generation-then-reexecution", [f"{AG}:AssertionGenerator._add_assertions", f"{AG}:AssertionGenerator.__remove_non_holding_assertions",
+                                                    f"{ATO}:RemoteAssertionVerificationObserver.after_statement_execution",
+                                                    f"{AG}:MutationAnalysisAssertionGenerator._handle_add_assertions"],
+             scope="real AssertionGenerator and MutationAnalysisAssertionGenerator (first-order arithmetic/constant mutants, with and "
+                   "without assertion minimization) with a real instrumented executor on a module whose results depend on a "
+                   "module-level counter (two and more non-holding assertions per statement) next to stable ones; every ordered "
+                   "selection of <= 2 (thorough 3) of 4 call blocks as the test case; afterwards the test case is re-executed by an "
+                   "independent evaluator and every kept assertion must hold",
+             bound="16 (40) test cases x 3 generator configurations")
+    return guarded(p, _check_e2e, tier, seed)
+
+
+BOUNDED = [bounded_summary, bounded_observer, bounded_remove, bounded_glue, bounded_e2e]
